@@ -431,7 +431,7 @@ func (w *world) faultSave(op *Op, hs *raftpb.HardState, es []raftpb.Entry, sn *r
 	_ = os.RemoveAll(imgRoot)
 	var prev *crashfs.Event
 	hit := ""
-	slotsDone, hitJ, clears, hitClears := 0, 0, 0, 0
+	slotsDone, hitJ, cleared, hitCleared := 0, 0, 0, 0
 	rec.Start(w.dir, func(ev *crashfs.Event) {
 		cl := classify(ev, prev)
 		cp := *ev
@@ -442,13 +442,13 @@ func (w *world) faultSave(op *Op, hs *raftpb.HardState, es []raftpb.Entry, sn *r
 			failNext = true
 			hit = cl
 			hitJ = slotsDone
-			hitClears = clears
+			hitCleared = cleared
 		}
 		if cl == "slot" {
 			slotsDone++
 		}
 		if cl == "zerofill-zeros" {
-			clears++
+			cleared += len(ev.Data) / raftlog.VerifEntrySize // slots cleared by the pieces done so far (top down)
 		}
 	}, nil)
 	err := w.ds.Save(hs, es, sn)
@@ -458,10 +458,8 @@ func (w *world) faultSave(op *Op, hs *raftpb.HardState, es []raftpb.Entry, sn *r
 		return err // the Save has fewer steps: an ordinary Save
 	}
 	w.c.Stats["fault:"+hit]++
-	// (a clearing done in several pieces that fails after the first piece leaves a partly cleared range: the model
-	// knows the all-or-nothing case only; the contract oracle below still applies)
-	if fk, rot := faultOf(hit); fk != "" && !(fk == "clear" && hitClears > 0) {
-		w.fault = &FaultObs{K: fk, J: hitJ, Rot: rot, Rep: err != nil}
+	if fk, rot := faultOf(hit); fk != "" {
+		w.fault = &FaultObs{K: fk, J: hitJ, Rot: rot, Rep: err != nil, C: uint64(hitCleared)}
 	}
 	im := image{dir: filepath.Join(imgRoot, "f"), seq: int(op.I), class: "fault-" + hit}
 	if err == nil {
